@@ -10,7 +10,9 @@
                   e (endStream) | R (reset session); flags = "-" or '+'-joined si | so | ml (the REQUESTED parameters at that call)
          frames = hs/ck/cs:rs,cs:rs,...;hs/ck/...
          -> <id> OK view:consumed:produced:ret:stage:inBuffPos:inToCompress:inBuffTarget:outContent:outFlushed:frameEnded:held:blockSize:
-                    inBuffSize:outBuffSize:hint:apos:asize:anull;... bad=<0|1> *)
+                    inBuffSize:outBuffSize:hint:apos:asize:anull:epos;... bad=<0|1>
+            (round 3: the calls go through the stability layer of C10Stab.v: epos = expectedInBuffer.pos as the model records it;
+             a call refused by the model of ZSTD_checkBufferStability shows as ret = EstabilityCondition_notRespected) *)
 open C10model
 
 let rec pos_of_int i = if i = 1 then XH else if i land 1 = 0 then XO (pos_of_int (i lsr 1)) else XI (pos_of_int (i lsr 1))
@@ -94,7 +96,7 @@ let cmd_w id ihex calls ohex frames =
   let x = slice xarr 0 (Array.length xarr) in
   let tape0 = { t_bytes = slice (arr_of_hex ohex) 0 max_int; t_hsize = N0; t_cksum = false; t_blocks = []; t_frames = parse_frames frames;
                 t_bad = false; t_chunks = [] } in
-  let a = ref (ta_new tape0) and stop = ref false in
+  let st = ref (ts_new tape0) and stop = ref false in
   let rec_ = Buffer.create 4096 in
   List.iter (fun c ->
     if not !stop then begin
@@ -105,37 +107,40 @@ let cmd_w id ihex calls ohex frames =
         let fc = { fc_windowLog = n_of_string wl; fc_maxBlock = n_of_string mb; fc_pledge = n_of_string "18446744073709551615" } in
         let n = n_of_string off and cap = n_of_string cp in
         let dir = (match d with "0" -> DirContinue | "1" -> DirFlush | _ -> DirEnd) in
+        let a = ref (!st).s_a in
         let view = ta_wview (!a).a_k in
         if kind = "R" then begin
           a := ta_reset !a;
+          st := { s_a = !a; s_epos = (!st).s_epos };      (* ZSTD_CCtx_reset does not touch expectedInBuffer *)
           let kk = (!a).a_k in
-          Buffer.add_string rec_ (Printf.sprintf "%d:0:0:0:%d:%s:%s:%s:%s:%s:%d:%d:%s:%s:%s:%s:%s:%s:%d;" (b2i view)
+          Buffer.add_string rec_ (Printf.sprintf "%d:0:0:0:%d:%s:%s:%s:%s:%s:%d:%d:%s:%s:%s:%s:%s:%s:%d:%s;" (b2i view)
             (kstage_i kk.k_stage) (string_of_n kk.k_inBuffPos) (string_of_n kk.k_inToCompress) (string_of_n kk.k_inBuffTarget)
             (string_of_n kk.k_outContent) (string_of_n kk.k_outFlushed) (b2i kk.k_frameEnded) (List.length kk.k_held)
             (string_of_n kk.k_blockSize) (string_of_n kk.k_inBuffSize) (string_of_n kk.k_outBuffSize) (string_of_n (ta_hint kk))
-            (string_of_n (!a).a_pos) (string_of_n (!a).a_size) (b2i (!a).a_null))
+            (string_of_n (!a).a_pos) (string_of_n (!a).a_size) (b2i (!a).a_null) (string_of_n (!st).s_epos))
         end else begin
-          let o = (match kind with
-                   | "c" -> ta_call p fc x !a n cap dir
-                   | "s" -> ta_stream p fc x !a n cap
-                   | "f" -> ta_flushStream p fc x !a cap
-                   | _ -> ta_endStream p fc x !a cap (n_of_string ck)) in
+          let so = (match kind with
+                   | "c" -> ts_call p fc x !st n cap dir
+                   | "s" -> ts_stream p fc x !st n cap
+                   | "f" -> ts_flushStream p fc x !st cap
+                   | _ -> ts_endStream p fc x !st cap (n_of_string ck)) in
+          let o = so.so_o in
           let kk = o.ao_a.a_k in
           let ret = (match o.ao_ret, o.ao_err with
                      | Some r, _ -> string_of_n r
                      | None, Some e -> stop := true; "E" ^ aerr_name e
                      | None, None -> stop := true; "E?") in
-          Buffer.add_string rec_ (Printf.sprintf "%d:%s:%d:%s:%d:%s:%s:%s:%s:%s:%d:%d:%s:%s:%s:%s:%s:%s:%d;" (b2i view)
+          Buffer.add_string rec_ (Printf.sprintf "%d:%s:%d:%s:%d:%s:%s:%s:%s:%s:%d:%d:%s:%s:%s:%s:%s:%s:%d:%s;" (b2i view)
             (string_of_z o.ao_consumed) (List.length o.ao_out) ret (kstage_i kk.k_stage) (string_of_n kk.k_inBuffPos)
             (string_of_n kk.k_inToCompress) (string_of_n kk.k_inBuffTarget) (string_of_n kk.k_outContent) (string_of_n kk.k_outFlushed)
             (b2i kk.k_frameEnded) (List.length kk.k_held) (string_of_n kk.k_blockSize) (string_of_n kk.k_inBuffSize)
             (string_of_n kk.k_outBuffSize) (string_of_n (ta_hint kk)) (string_of_n o.ao_a.a_pos) (string_of_n o.ao_a.a_size)
-            (b2i o.ao_a.a_null));
-          a := o.ao_a
+            (b2i o.ao_a.a_null) (string_of_n so.so_s.s_epos));
+          st := so.so_s
         end
       | _ -> ()
     end) (split ';' calls);
-  let t = (!a).a_k.k_cs in
+  let t = (!st).s_a.a_k.k_cs in
   Printf.printf "%s OK %s bad=%d\n" id (if Buffer.length rec_ = 0 then "-" else Buffer.contents rec_) (b2i t.t_bad)
 
 let print_rres id = function
